@@ -197,6 +197,13 @@ CLAIMS["C22"] = {
             "per process (runtime-rng), which the cross-process comparison relies on.",
 }
 
+# per-property claim files (lib/claims.d/Cnn.json: {"technique","text","note"}) so that a new property
+# is claimed without editing this file
+import json as _json, os as _os, glob as _glob
+for _p in sorted(_glob.glob(_os.path.join(_os.path.dirname(_os.path.abspath(__file__)), "claims.d", "C*.json"))):
+    _c = _json.load(open(_p, encoding="utf-8"))
+    CLAIMS[_os.path.basename(_p)[:-5]] = {"technique": _c["technique"], "text": _c["text"], "note": TB + _c.get("note", "")}
+
 ALL = [f"C{i:02d}" for i in range(1, 34)]
 NOT_APPLICABLE = {p: "check not built yet in this session (planned, see DESIGN.md §9); not a claim that the technique cannot apply"
                   for p in ALL if p not in CLAIMS}
